@@ -13,13 +13,15 @@ Section Data.
 Variable fin : f64 -> Prop.
 (* null in the data is admitted only together with schemas free of allOf / anyOf / not at every level (see [local_clean]) *)
 Variable allow_null : bool.
+(* arrays in the data are admitted only together with schemas whose formats sit next to a type list that accepts arrays (see [local_clean]) *)
+Variable allow_arr : bool.
 
 Fixpoint jd (v : goval) : Prop :=
   match v with
   | VNil => allow_null = true
   | VBool _ | VStr _ => True
   | VFlt is32 f => is32 = false /\ fin f
-  | VArr _ l => (fix all (l : list goval) : Prop := match l with [] => True | x :: t => jd x /\ all t end) l
+  | VArr _ l => allow_arr = true /\ (fix all (l : list goval) : Prop := match l with [] => True | x :: t => jd x /\ all t end) l
   | VObj _ m =>
       (fix all (m : list (str * goval)) : Prop :=
          match m with [] => True | kv :: t => plain_key (fst kv) /\ jd (snd kv) /\ all t end) m /\
@@ -27,10 +29,12 @@ Fixpoint jd (v : goval) : Prop :=
   | _ => False
   end.
 
-Lemma jd_arr id l : jd (VArr id l) <-> Forall jd l.
+Lemma jd_arr id l : jd (VArr id l) <-> allow_arr = true /\ Forall jd l.
 Proof.
-  cbn [jd]. induction l as [|x t IH]; [split; [constructor | intros; exact I]|].
-  split; [intros [H1 H2]; constructor; [exact H1 | apply IH; exact H2] | intros H; inversion H; subst; split; [assumption | apply IH; assumption]].
+  cbn [jd]. assert (E : (fix all (l : list goval) : Prop := match l with [] => True | x :: t => jd x /\ all t end) l <-> Forall jd l).
+  { induction l as [|x t IH]; [split; [constructor | intros; exact I]|].
+    split; [intros [H1 H2]; constructor; [exact H1 | apply IH; exact H2] | intros H; inversion H; subst; split; [assumption | apply IH; assumption]]. }
+  rewrite E. reflexivity.
 Qed.
 
 Lemma jd_obj id m : jd (VObj id m) <-> Forall (fun kv => plain_key (fst kv) /\ jd (snd kv)) m /\ NoDup (map fst m).
@@ -48,7 +52,7 @@ Qed.
 Lemma depth_eq : forall v, jd v -> goval_depth v = jdepth v.
 Proof.
   fix IH 1. intros v. destruct v as [| | | | | |id l| |id m]; intros H; try reflexivity; try (exfalso; exact H).
-  - cbn [goval_depth jdepth]. f_equal. cbn [jd] in H. generalize 0%nat as acc. revert l H.
+  - cbn [goval_depth jdepth]. f_equal. cbn [jd] in H. destruct H as [_ H]. generalize 0%nat as acc. revert l H.
     fix IHl 1. intros l. destruct l as [|x t]; intros H acc; [reflexivity|]. destruct H as [Hx Ht].
     cbn [fold_left]. rewrite (IH x Hx). apply (IHl t Ht).
   - cbn [goval_depth jdepth]. f_equal. apply jd_obj in H. destruct H as [H _]. generalize 0%nat as acc. revert m H.
@@ -82,7 +86,7 @@ Proof.
   induction fuel as [|f IH]; intros a b Ha Hb; [reflexivity|].
   destruct a as [| | |a32 fa| | |ida la| |ida ma]; try (exfalso; exact Ha); destruct b as [| | |b32 fb| | |idb lb| |idb mb]; try (exfalso; exact Hb); try reflexivity.
   - cbn [deep_eq_fuel json_eq_fuel]. cbn [jd] in Ha, Hb. destruct Ha as [-> _]. destruct Hb as [-> _]. reflexivity.
-  - cbn [deep_eq_fuel json_eq_fuel]. apply jd_arr in Ha. apply jd_arr in Hb. revert lb Hb.
+  - cbn [deep_eq_fuel json_eq_fuel]. apply jd_arr in Ha. apply jd_arr in Hb. destruct Ha as [_ Ha]. destruct Hb as [_ Hb]. revert lb Hb.
     induction Ha as [|x t Hx Ht IHl]; intros [|y u] Hb; try reflexivity. inversion Hb; subst.
     rewrite (IH x y); [|assumption|assumption]. f_equal. apply IHl. assumption.
   - cbn [deep_eq_fuel json_eq_fuel]. apply jd_obj in Ha. apply jd_obj in Hb. destruct Ha as [Ha _]. destruct Hb as [Hb Hnd]. f_equal.
@@ -107,9 +111,9 @@ Qed.
 End Values.
 End Data.
 
-Arguments jd_arr {fin allow_null} id l.
-Arguments jd_obj {fin allow_null} id m.
-Arguments depth_eq {fin allow_null} v _.
-Arguments deq_jeq {fin allow_null N} fuel a b _ _.
-Arguments deep_eq_json_eq {fin allow_null N} a b _ _.
-Arguments enum_match_json_eq {fin allow_null N} d e _ _.
+Arguments jd_arr {fin allow_null allow_arr} id l.
+Arguments jd_obj {fin allow_null allow_arr} id m.
+Arguments depth_eq {fin allow_null allow_arr} v _.
+Arguments deq_jeq {fin allow_null allow_arr N} fuel a b _ _.
+Arguments deep_eq_json_eq {fin allow_null allow_arr N} a b _ _.
+Arguments enum_match_json_eq {fin allow_null allow_arr N} d e _ _.
